@@ -126,7 +126,7 @@ def s_C17(tier, rng):
                 yield gen.random_history(_r.Random(seed), f"rt{k}-{V}", Q(tier, 40, 120), V=V)
     return [("corpus", gen.corpus()),
             ("collections", gen.collections(tier, rng, Q(tier, 1000, 15000))),
-            ("collections_bulk", gen.collections_bulk(tier, rng, Q(tier, 40, 500))),
+            ("collections_bulk", gen.collections_bulk(tier, rng, Q(tier, 24, 500))),
             ("routed_histories", routed()),
             ("statics_routes", gen.statics_routes(tier, rng, Q(tier, 600, 6000))),
             ("views", gen.views(tier, rng, Q(tier, 400, 4000)))]
